@@ -334,5 +334,24 @@ CHECKS["C18"] = {
     "level_note": "Schedule is the Go scheduler's (not controlled, not replayable exactly); a replay re-runs the same operation lists up to 20 times.",
 }
 
+
+
+def F(test, thorough_s=45, quick_s=0):
+    return {"test": test, "fuzz": True, "quick": {"checks": 0, "fuzztime": quick_s}, "thorough": {"checks": 0, "fuzztime": thorough_s}}
+
+
+FUZZ_NOTE = (" Thorough tier additionally runs the native coverage-guided fuzzer (go test -fuzz, 16 workers, wall-clock budget) on %s: the same "
+             "structured generators through rapid.MakeFuzz with the oracle inside the target; its executions are added to `evaluations` and "
+             "reported separately (fuzz_execs, fuzz_new_interesting_inputs). Native fuzzing cannot be pinned to a seed: a saved failing input is the reproducible unit.")
+for _pid, _t, _what in [("C04", "FuzzVF_C04_Route", "a bare routing table against the reference router"),
+                        ("C08", "FuzzVF_C08_StopMessage", "the stop message rendered into the built-in and a custom 503 page"),
+                        ("C10", "FuzzVF_C10_Cookie", "the rollout decision as a function of the Cookie header"),
+                        ("C13", "FuzzVF_C13_Rewrite", "the outbound request line after prefix stripping"),
+                        ("C14", "FuzzVF_C14_Buffer", "the buffer with sizes and limits beyond the exhaustive layer"),
+                        ("C16", "FuzzVF_C16_Redirect", "the HTTPS redirect's Location")]:
+    CHECKS[_pid]["layers"].append(F(_t))
+    CHECKS[_pid]["rule"] += FUZZ_NOTE % _what
+    CHECKS[_pid]["technique"] += "; native coverage-guided fuzzing (go test -fuzz) of the byte-level core in the thorough tier"
+
 ALL_IDS = ["C%02d" % i for i in range(1, 21)]
 NOT_APPLICABLE = {pid: "check not built yet (work in progress; see DESIGN.md section 8 for the order of work)" for pid in ALL_IDS if pid not in CHECKS}
